@@ -298,22 +298,8 @@ def place(cx):
     from . import c04ev
 
     c04ev.occupancy_set_rule(repo, res)
-    # 5. time-independent occupancies
-    for cname, slot in (("StaticObstacle", "self._initial_occupancy_shape"), ("EnvironmentObstacle", "self._obstacle_shape")):
-        fk = cx.fn(O, cname, "occupancy_at_time")
-        tp = [a.arg for a in fk.fn.args.args][1]
-        rets = [r for r in walk_no_nested(fk.fn) if isinstance(r, ast.Return)]
-        ok = len(rets) == 1 and isinstance(rets[0].value, ast.Call) and call_name(rets[0].value) == "Occupancy"
-        if ok:
-            c = rets[0].value
-            kw = {k.arg: norm(k.value) for k in c.keywords}
-            pos = [norm(a) for a in c.args]
-            ts = kw.get("time_step", pos[0] if pos else None)
-            shp_ = kw.get("shape", pos[1] if len(pos) > 1 else None)
-            ok = ts == tp and shp_ == slot
-        res.check("OCC-PLACE", "%s.occupancy_at_time = Occupancy(t, %s)" % (cname, slot), ok, fk.mod, rets[0] if rets else fk.fn, norm(rets[0]) if rets else "?", "the occupancy of a static object depends on something else than its placed shape", qualname=fk.name)
-
-
+    # 5. time-independent occupancies: decided by abstract evaluation
+    c04ev.time_independent_rule(repo, res, "OCC-PLACE")
 
 
 # --------------------------------------------------------------------------- OCC-DISPATCH
